@@ -128,7 +128,7 @@ def units(tier, seed):
             us.append({"part": "gen", "n": n, "chunk": c, "of": chunks})
     for name in SHAPES():
         for ss in (False, True):
-            for obs in ("none", "raising-global", "raising-typed"):
+            for obs in ("none", "raising-global", "raising-typed", "raising-partial", "raising-callable-object"):
                 us.append({"shape": name, "store_skips": ss, "observer": obs})
     return us
 
@@ -198,6 +198,14 @@ def check_case(case):
                 raise RuntimeError("observer failure")
             if case["observer"] == "raising-global":
                 broker.add_observer(bad_observer)
+            elif case["observer"] == "raising-partial":
+                import functools
+                broker.add_observer(functools.partial(bad_observer))      # a callable without __name__
+            elif case["observer"] == "raising-callable-object":
+                class _Obs(object):
+                    def __call__(self, comp, b):
+                        return bad_observer(comp, b)
+                broker.add_observer(_Obs())                               # another callable without __name__
             else:
                 from insights.core import plugins
                 for T in (plugins.datasource, plugins.parser, plugins.rule, G.needs):
